@@ -65,6 +65,15 @@ def build_program_case(rng, n_blocks=None, allow=None, main_modes=('usr', 'sys',
     G.set_data(devices[1], 0, code)
     G.set_data(devices[2], 0x400, bytes(rng.getrandbits(8) for _ in range(0x100)))
     regs = P.main_state(rng, cfg, mode, thumb, te, extra_sys)
+    if extra_sys is None and mode == 'usr' and rng.random() < 0.5:
+        # MPU on: the handler stacks are privileged-only, the User program keeps access to its own stack, data and code.  A return
+        # sequence must therefore finish every access to the handler stack BEFORE it drops to User mode
+        mpu = [(0, 0, 0)] * 12
+        mpu[0] = (1 | 31 << 1, 0, 3 << 8)
+        mpu[5] = (1 | 8 << 1, G.STACKS + 0x200, 1 << 8)
+        mpu[6] = (1 | 9 << 1, G.STACKS + 0x400, 1 << 8)
+        regs['sys'].update(G.mpu_sys(mpu))
+        regs['sys']['sctlr'] = G.sctlr_value(m=1, a=0, u=1, te=te, v=0, br=1)
     if cfg['have_security_ext'] and rng.random() < 0.5:
         # Security Extensions routing: IRQ and/or FIQ are taken to Monitor mode (handlers behind MVBAR), from a Secure or Non-secure main program
         scr = rng.choice([2, 4, 6]) | rng.getrandbits(1) | rng.getrandbits(2) << 4
